@@ -46,14 +46,40 @@ impl AI {
     }
 }
 
-/// frame identifiers: (qubits, name)
-pub const FRAME_KEYS: [(&str, &str); 6] =
-    [("0", "a"), ("1", "a"), ("0 1", "a"), ("0", "b"), ("2", "c"), ("7", "d")];
-/// gate calibration signatures: (name, qubits)
-pub const CAL_SIGS: [(&str, &str); 5] =
-    [("X", "0"), ("X", "q0"), ("CNOT", "0 1"), ("X", "1"), ("Y", "0")];
-/// measure calibration signatures: qubit (target is always `addr`)
-pub const MCAL_SIGS: [&str; 3] = ["0", "1", "q0"];
+/// frame identifiers: (qubits, name).  Neighbouring entries differ in exactly one component
+/// (name only, qubit only, qubit ORDER only).
+pub const FRAME_KEYS: [(&str, &str); 7] =
+    [("0", "a"), ("1", "a"), ("0 1", "a"), ("0", "b"), ("2", "c"), ("7", "d"), ("1 0", "a")];
+/// gate calibration signatures: header after `DEFCAL `, and the first qubit (used by the bodies).
+/// Entries differ from a neighbour in exactly one component: name, one qubit, qubit order, a
+/// modifier, one parameter, parameter constant-vs-variable.
+pub const CAL_SIGS: [(&str, &str); 11] = [
+    ("X 0", "0"),
+    ("X q0", "q0"),
+    ("CNOT 0 1", "0"),
+    ("X 1", "1"),
+    ("Y 0", "0"),
+    ("CNOT 1 0", "1"),
+    ("CONTROLLED X 1 0", "1"),
+    ("RX(1.0) 0", "0"),
+    ("RX(2.0) 0", "0"),
+    ("RX(%t) 0", "0"),
+    ("RX(1.0) 1", "1"),
+];
+/// measure calibration signatures: header after `DEFCAL `, and the qubit.  Entries differ in
+/// exactly one component: qubit, Quil-T name, target present-vs-absent, target NAME.
+pub const MCAL_SIGS: [(&str, &str); 7] = [
+    ("MEASURE 0 addr", "0"),
+    ("MEASURE 1 addr", "1"),
+    ("MEASURE q0 addr", "q0"),
+    ("MEASURE 0 dest", "0"),
+    ("MEASURE 0", "0"),
+    ("MEASURE!mid 0 addr", "0"),
+    ("MEASURE!mid 0", "0"),
+];
+
+/// number of payload variants per definition kind (kind index as in `AI::route`)
+pub const NPAYLOADS: [u64; 8] = [5, 10, 6, 4, 6, 6, 4, 4];
 
 /// body shapes; every qubit slot is filled at concretisation.  Indices FRAME_UPDATE_LO..=HI are the
 /// frame-update instructions whose qubits `get_qubits` reports only after the repair.
@@ -278,78 +304,98 @@ impl U {
     }
 
     /// Quil text of a definition.  Payloads differ STRUCTURALLY (different attribute key sets,
-    /// lengths, forms, types, body lengths), not just in one value, so that a "merged" or partially
-    /// replaced definition is a text that belongs to no payload.
+    /// lengths, forms, types, body lengths) and, pairwise, in EXACTLY ONE sub-field (only the
+    /// sharing name, only an offset, only one attribute value, only one body instruction ...), so
+    /// that a merged, partially replaced or wrongly "unchanged" definition is visible.
     fn def_text(ai: &AI) -> String {
         fn cal_body(sq: &str, payload: u64) -> String {
-            let foreign = 4 + (payload / 4) % 3;
-            match payload % 4 {
+            match payload {
                 0 => format!("    PULSE {sq} \"a\" w0"),
-                1 => format!("    PULSE {foreign} \"a\" w0\n    FENCE {sq}"),
-                2 => format!("    FENCE {sq} {foreign}"),
-                _ => format!("    SHIFT-PHASE {foreign} \"a\" 1.0\n    PULSE {sq} \"b\" w1\n    DELAY {sq} 2.0"),
+                1 => format!("    PULSE 4 \"a\" w0\n    FENCE {sq}"),
+                2 => format!("    FENCE {sq} 4"),
+                3 => format!("    SHIFT-PHASE 5 \"a\" 1.0\n    PULSE {sq} \"b\" w1\n    DELAY {sq} 2.0"),
+                // one instruction differs from payload 1
+                4 => format!("    PULSE 4 \"a\" w0\n    FENCE {sq} 6"),
+                // one operand differs from payload 3
+                5 => format!("    SHIFT-PHASE 5 \"a\" 1.0\n    PULSE {sq} \"b\" w1\n    DELAY {sq} 3.0"),
+                other => panic!("calibration payload {other}"),
             }
         }
         match ai {
             AI::Decl { name, payload } if *payload >= 100 => format!("DECLARE lc{name} INTEGER[{}]", payload - 99),
-            AI::Decl { name, payload } => match payload % 4 {
-                0 => format!("DECLARE m{name} BIT[{}]", payload + 1),
-                1 => format!("DECLARE m{name} REAL[{}]", payload + 1),
-                2 => format!("DECLARE m{name} OCTET[{}] SHARING sh OFFSET {} BIT", payload + 1, payload + 1),
-                _ => format!("DECLARE m{name} INTEGER[{}] SHARING sh OFFSET 1 REAL {} BIT", payload + 1, payload),
-            },
+            AI::Decl { name, payload } => {
+                let rest = match payload {
+                    0 => "BIT[1]",
+                    1 => "REAL[2]",
+                    2 => "OCTET[3] SHARING sh OFFSET 3 BIT",
+                    3 => "INTEGER[4] SHARING sh OFFSET 1 REAL 3 BIT",
+                    4 => "BIT[1] SHARING sh",                   // vs 0: sharing only
+                    5 => "REAL[2] SHARING sh OFFSET 1 BIT",      // vs 1: sharing + offset only
+                    6 => "OCTET[3] SHARING sh OFFSET 4 BIT",     // vs 2: one offset only
+                    7 => "OCTET[3] SHARING other OFFSET 3 BIT",  // vs 2: sharing name only
+                    8 => "BIT[2]",                               // vs 0: length only
+                    9 => "INTEGER[1]",                           // vs 0: type only
+                    other => panic!("declaration payload {other}"),
+                };
+                format!("DECLARE m{name} {rest}")
+            }
             AI::FrameDef { key, payload } => {
                 let (qs, nm) = FRAME_KEYS[*key as usize];
-                let attrs = match payload % 4 {
-                    0 => format!("    DIRECTION: \"tx\"\n    SAMPLE-RATE: {}.0", payload + 1),
-                    1 => format!("    INITIAL-FREQUENCY: {}.0", payload + 1),
-                    2 => format!("    HARDWARE-OBJECT: \"h{payload}\"\n    DIRECTION: \"rx\"\n    CENTER-FREQUENCY: 5.0"),
-                    _ => format!("    HARDWARE-OBJECT: \"h{payload}\""),
+                let attrs = match payload {
+                    0 => "    DIRECTION: \"tx\"\n    SAMPLE-RATE: 1.0",
+                    1 => "    INITIAL-FREQUENCY: 2.0",
+                    2 => "    HARDWARE-OBJECT: \"h2\"\n    DIRECTION: \"rx\"\n    CENTER-FREQUENCY: 5.0",
+                    3 => "    HARDWARE-OBJECT: \"h3\"",
+                    4 => "    DIRECTION: \"tx\"\n    SAMPLE-RATE: 2.0", // vs 0: one attribute value
+                    5 => "    DIRECTION: \"rx\"\n    SAMPLE-RATE: 1.0", // vs 0: the other attribute value
+                    other => panic!("frame payload {other}"),
                 };
                 format!("DEFFRAME {qs} \"{nm}\":\n{attrs}")
             }
-            AI::WaveDef { name, payload } => match payload % 3 {
-                0 => format!("DEFWAVEFORM w{name}:\n    {}, 0", payload + 1),
-                1 => format!("DEFWAVEFORM w{name}:\n    1, {}, 2", payload + 1),
-                _ => format!("DEFWAVEFORM w{name}(%a):\n    %a, {}, 0, 1", payload + 1),
+            AI::WaveDef { name, payload } => match payload {
+                0 => format!("DEFWAVEFORM w{name}:\n    1, 0"),
+                1 => format!("DEFWAVEFORM w{name}:\n    1, 2, 2"),
+                2 => format!("DEFWAVEFORM w{name}(%a):\n    %a, 3, 0, 1"),
+                3 => format!("DEFWAVEFORM w{name}:\n    1, 1"), // vs 0: one sample
+                other => panic!("waveform payload {other}"),
             },
             AI::GateDef { name, payload } => {
                 if *payload >= 50 {
                     let extra = if payload % 2 == 1 { "\n    H q0" } else { "" };
                     format!("DEFGATE G{name} q0 q1 AS SEQUENCE:\n    X q0\n    RZ({}) q1{extra}", payload)
                 } else {
-                    match payload % 3 {
-                        0 => format!("DEFGATE G{name}:\n    {}, 0\n    0, 1", payload + 1),
-                        1 => format!(
-                            "DEFGATE G{name}:\n    {}, 0, 0, 0\n    0, 1, 0, 0\n    0, 0, 1, 0\n    0, 0, 0, 1",
-                            payload + 1
-                        ),
-                        _ => format!("DEFGATE G{name}(%t):\n    {}, 0\n    0, %t", payload + 1),
+                    match payload {
+                        0 => format!("DEFGATE G{name}:\n    1, 0\n    0, 1"),
+                        1 => format!("DEFGATE G{name}:\n    2, 0, 0, 0\n    0, 1, 0, 0\n    0, 0, 1, 0\n    0, 0, 0, 1"),
+                        2 => format!("DEFGATE G{name}(%t):\n    3, 0\n    0, %t"),
+                        3 => format!("DEFGATE G{name}:\n    1, 0\n    0, 2"), // vs 0: one entry
+                        other => panic!("gate payload {other}"),
                     }
                 }
             }
-            AI::CircuitDef { name, payload } => match payload % 3 {
-                0 => format!("DEFCIRCUIT C{name} q0:\n    RZ({}) q0", payload + 1),
-                1 => format!("DEFCIRCUIT C{name} q0:\n    RZ({}) q0\n    X {}", payload + 1, 3 + payload % 5),
-                _ => format!(
-                    "DEFCIRCUIT C{name}(%a) q0 q1:\n    RZ(%a) q0\n    CNOT q0 q1\n    RX({}) q1",
-                    payload + 1
-                ),
+            AI::CircuitDef { name, payload } => match payload {
+                0 => format!("DEFCIRCUIT C{name} q0:\n    RZ(1) q0"),
+                1 => format!("DEFCIRCUIT C{name} q0:\n    RZ(2) q0\n    X 4"),
+                2 => format!("DEFCIRCUIT C{name}(%a) q0 q1:\n    RZ(%a) q0\n    CNOT q0 q1\n    RX(3) q1"),
+                3 => format!("DEFCIRCUIT C{name} q0:\n    RZ(2) q0\n    X 5"), // vs 1: one instruction
+                other => panic!("circuit payload {other}"),
             },
             AI::Calib { sig, payload } => {
-                let (nm, qs) = CAL_SIGS[*sig as usize];
-                let sq = qs.split(' ').next().unwrap();
-                format!("DEFCAL {nm} {qs}:\n{}", cal_body(sq, *payload))
+                let (hd, sq) = CAL_SIGS[*sig as usize];
+                format!("DEFCAL {hd}:\n{}", cal_body(sq, *payload))
             }
             AI::MeasureCalib { sig, payload } => {
-                let q = MCAL_SIGS[*sig as usize];
-                format!("DEFCAL MEASURE {q} addr:\n{}", cal_body(q, *payload))
+                let (hd, q) = MCAL_SIGS[*sig as usize];
+                format!("DEFCAL {hd}:\n{}", cal_body(q, *payload))
             }
             AI::Extern { name, payload } => {
-                let sig = match payload % 3 {
-                    0 => format!("(x{payload} : INTEGER)"),
-                    1 => format!("REAL (x{payload} : mut REAL[3])"),
-                    _ => format!("INTEGER (a : INTEGER, x{payload} : BIT)"),
+                let sig = match payload {
+                    0 => "(x0 : INTEGER)",
+                    1 => "REAL (x1 : mut REAL[3])",
+                    2 => "INTEGER (a : INTEGER, x2 : BIT)",
+                    3 => "(x0 : REAL)",          // vs 0: one parameter type
+                    4 => "(x0 : INTEGER, y : BIT)", // vs 0: one more parameter
+                    other => panic!("extern payload {other}"),
                 };
                 match name {
                     Some(n) => format!("PRAGMA EXTERN f{n} \"{sig}\""),
@@ -531,7 +577,7 @@ pub fn distinct_frames(l: &[AI]) -> usize {
 pub fn has_frame_update(l: &[AI]) -> bool {
     l.iter().any(|a| match a {
         AI::Body { k, .. } => (FRAME_UPDATE_LO..=FRAME_UPDATE_HI).contains(k),
-        AI::Calib { payload, .. } | AI::MeasureCalib { payload, .. } => payload % 4 == 3,
+        AI::Calib { payload, .. } | AI::MeasureCalib { payload, .. } => *payload == 3 || *payload == 5,
         _ => false,
     })
 }
@@ -559,17 +605,29 @@ pub struct Gen {
 impl Gen {
     pub fn def(&self, rng: &mut Rng, kind: usize) -> AI {
         let key = rng.below(self.nkeys as usize) as u64;
-        let payload = rng.below(self.npayloads as usize) as u64;
+        // every payload variant of the kind (incl. the "differs in one sub-field" ones)
+        let payload = rng.below(NPAYLOADS[kind] as usize) as u64;
         match kind {
             0 => AI::Extern {
                 name: if rng.chance(1, 4) { None } else { Some(key) },
                 payload,
             },
             1 => AI::Decl { name: key, payload },
-            2 => AI::FrameDef { key: key % FRAME_KEYS.len() as u64, payload },
+            // keys over the whole table half of the time, so that near-miss keys (name only,
+            // qubit only, qubit order only, target name only ...) meet; else few keys (redefinitions)
+            2 => AI::FrameDef {
+                key: if rng.chance(1, 2) { rng.below(FRAME_KEYS.len()) as u64 } else { key % FRAME_KEYS.len() as u64 },
+                payload,
+            },
             3 => AI::WaveDef { name: key, payload },
-            4 => AI::Calib { sig: key % CAL_SIGS.len() as u64, payload },
-            5 => AI::MeasureCalib { sig: key % MCAL_SIGS.len() as u64, payload },
+            4 => AI::Calib {
+                sig: if rng.chance(1, 2) { rng.below(CAL_SIGS.len()) as u64 } else { key % CAL_SIGS.len() as u64 },
+                payload,
+            },
+            5 => AI::MeasureCalib {
+                sig: if rng.chance(1, 2) { rng.below(MCAL_SIGS.len()) as u64 } else { [0u64, 3, 4][(key % 3) as usize] },
+                payload,
+            },
             6 => AI::GateDef {
                 name: key,
                 payload: if rng.chance(1, 4) { 50 + payload } else { payload },
